@@ -123,7 +123,7 @@ func startChild(cfg childCfg) (*child, error) {
 		}
 		ch.port, _ = strconv.Atoi(f[1])
 		ch.udpPort, _ = strconv.Atoi(f[2])
-	case <-time.After(20 * time.Second):
+	case <-time.After(60 * time.Second):
 		cmd.Process.Kill()
 		cmd.Wait()
 		ch.cleanup()
